@@ -149,8 +149,13 @@ func (r *ContentReader) parseComments() {
 				r.autoReset = true
 			}
 		case skipNextLine:
-			r.skipNext = true
-			r.autoReset = true
+			if r.inBegin {
+				// already inside ignore/begin block, keep skipping until ignore/end
+				r.emptyCurrentLine(lineComments)
+			} else {
+				r.skipNext = true
+				r.autoReset = true
+			}
 		case skipBegin:
 			r.skipNext = true
 			r.autoReset = false
